@@ -3,7 +3,7 @@ import ast
 
 from ..model import AnalysisError, dotted, unparse
 from ..structfmt import parse_format, local_defs, resolve_local, reaching_def
-from ..util import U, enum_paths, walk_no_nested, norm_fact
+from ..util import POS, FACTS, FACTS_I, U, enum_paths, walk_no_nested, norm_fact
 from ..paths import call_attr, call_name
 from .. import wire
 
@@ -273,7 +273,7 @@ def r4(ctx):
     if ex[0] != 'ret':
       continue
     r = [e for e in ev if e.kind == 'ret'][-1].node
-    conds = [(U(e.node).replace(' ', ''), e.info) for e in ev if e.kind == 'cond']
+    conds = FACTS(ev)
     calls = [e.node for e in ev if e.kind == 'call']
     rets.append((r, conds, calls, ev))
   why = 'a reply must be mapped to exactly one of: value, declared exception, application exception, None for void'
@@ -290,15 +290,15 @@ def r4(ctx):
       ctx.ob('C14.R4', f, 'returns a MethodReturnMessage', False, 'returns %s' % U(r.value), why)
       continue
     kws = dict((k.arg, k.value) for k in m.keywords)
-    is_exc_branch = any('TMessageType.EXCEPTION' in c and t for c, t in conds)
+    is_exc_branch = ('msg_type==TMessageType.EXCEPTION', True) in conds
     if is_exc_branch:
       ok = 'error' in kws and not m.args and exc_kind(kws['error'], defs, m.lineno) and any(call_attr(c) == 'read' for c in calls)
       seen['exception'].append(ok)
-    elif any("'success'" in c and c.endswith('isnotNone') and t for c, t in conds):
+    elif ("getattr(result,'success',None)isnotNone", True) in conds:
       v = kws.get('return_value', m.args[0] if m.args else None)
       ok = v is not None and U(v).endswith('.success') and 'error' not in kws
       seen['success'].append(ok)
-    elif 'error' in kws and isinstance(kws['error'], ast.Name) and any(c.startswith(kws['error'].id + 'isnotNone') and t for c, t in conds):
+    elif 'error' in kws and isinstance(kws['error'], ast.Name) and (kws['error'].id + 'isnotNone', True) in conds:
       seen['declared'].append(True)
     elif not m.args and not m.keywords:
       seen['void'].append(True)
@@ -319,7 +319,7 @@ def r4(ctx):
          'exception scan does not use thrift_spec[1:] / field index 2', 'spec entry 0 is the success field; index 2 of an entry is the attribute name')
   # a result class that exists is read before classification
   okread = all(any(call_attr(c) == 'read' for c in calls) for r, conds, calls, ev in rets
-               if any(c.replace(' ', '') == 'result_cls' and t for c, t in conds))
+               if any(c.replace(' ', '') == 'result_cls' and t for c, t in POS(conds)))
   ctx.ob('C14.R4', f, 'result struct is read from the protocol', okread, 'a path classifies the result without reading it', why)
 
 
@@ -334,7 +334,7 @@ def r5(ctx):
     if ex[0] != 'ret':
       continue
     r = [e for e in ev if e.kind == 'ret'][-1].node
-    conds = [(U(e.node).replace(' ', ''), e.info) for e in ev if e.kind == 'cond']
+    conds = FACTS(ev)
     if any('isinstance(%s.error,TimeoutError)' % msg == c and t for c, t in conds):
       ok_t = U(r.value) == '%s.error' % msg
     elif any(c == 'stack' and t for c, t in conds):
